@@ -17,6 +17,8 @@ class SemiWrapper(KDWrapper):
 
     def getall_class(self):
         cls = self.dataset.getall_class()
+        # the wrapped dataset may hand out its stored labels -> mark the unlabeled samples in a copy
+        cls = cls.clone() if hasattr(cls, "clone") else cls.copy()
         for idx in self.semi_idxs:
             cls[idx] = -1
         return cls
